@@ -322,7 +322,7 @@ def assemble(unit_file, canary=False, mutate_spec=None):
                 expanded.append((path, ln, l))
                 if s.startswith("//@ "):
                     tk = s.split()
-                    if tk[1] in ("ITEM", "IMPLHEAD", "TRAITHEAD", "FN", "COVER"):
+                    if tk[1] in ("ITEM", "IMPLHEAD", "TRAITHEAD", "TRAITTYPES", "FN", "COVER"):
                         files.add(tk[2])
 
     expand(lines)
@@ -371,7 +371,20 @@ def assemble(unit_file, canary=False, mutate_spec=None):
             it = find_item(ex, relfile, key, (kind,))
             src = ex[relfile]["src"]
             end = it["header_end"] if kind == "impl" else it["brace_open"] - 1
-            asm.emit(src[it["start"]:end].decode().lstrip() + "{\n", {"kind": "repo-item", "file": relfile, "line0": it["span"][2], "key": key})
+            head = src[it["start"]:end].decode().lstrip()
+            kvh, _ = _kv(tk[4:])
+            if kvh.get("super"):
+                # documented ghost insertion (DESIGN 3.5): a supertrait bound Verus needs for `-> Self` declarations
+                head = head.rstrip() + ": " + kvh["super"] + " "
+                asm.rewrites.append({"fn": key, "file": relfile, "from": "trait header", "to": "added supertrait bound " + kvh["super"], "occurrences": 1})
+            asm.emit(head + "{\n", {"kind": "repo-item", "file": relfile, "line0": it["span"][2], "key": key})
+            i += 1
+        elif d == "TRAITTYPES":
+            relfile, key = tk[2], tk[3]
+            src = ex[relfile]["src"]
+            for it in ex[relfile]["items"]:
+                if it["kind"] == "trait_type" and it["key"].startswith(key + "::"):
+                    asm.emit("    " + src[it["start"]:it["span"][1]].decode().strip() + "\n", {"kind": "repo-item", "file": relfile, "line0": it["span"][2], "key": it["key"]})
             i += 1
         elif d == "COVER":
             relfile, key = tk[2], tk[3]
@@ -425,68 +438,78 @@ def assemble(unit_file, canary=False, mutate_spec=None):
                     buf.append(l2)
                 i += 1
             spec = "\n".join(spec_lines)
-            fninfo = {"unit": asm.unit, "key": key, "file": relfile, "body_tags": body_tags}
-            # signature
-            sig_start = it["start"]
-            sig_text = src[sig_start:it["paren_end"]].decode().lstrip()
-            asm.emit("    " + sig_text, {"kind": "repo-sig", "file": relfile, "line0": it["span"][2], "fn": fninfo})
-            if it["ret"] is not None:
-                ty = src[it["ret"]["ty"][0]:it["ret"]["ty"][1]].decode()
-                asm.emit(" -> (%s: %s)" % (retname, ty), {"kind": "gen"})
-            if it["where"] is not None:
-                asm.emit("\n    " + src[it["where"][0]:it["where"][1]].decode(), {"kind": "repo-sig", "file": relfile, "line0": it["span"][2], "fn": fninfo})
-            asm.emit("\n", None)
-            # spec
-            if mutate_spec:
-                spec = mutate_spec(key, spec)
-            spec_core = spec.rstrip()
+            passes = [False]
             if canary and "nobody" not in flags and it["body"] is not None:
-                has_ens = any(c[0] == "ensures" for c in split_spec(spec_core))
-                sc = spec_core.rstrip()
-                if has_ens:
-                    if not sc.endswith(","):
-                        sc += ","
-                    sc += "\n        false /*canary*/,"
-                else:
-                    sc += "\n      ensures false /*canary*/,"
-                spec_core = sc
-            base = asm.pos
-            asm.emit(spec_core + "\n", {"kind": "spec", "fn": fninfo})
-            for ci, (section, ctext, cs, ce, tags) in enumerate(split_spec(spec_core)):
-                if section in ("requires", "ensures"):
-                    nm = "%s::%s::%s#%d" % (asm.unit, key, section, sum(1 for c in asm.clauses if c["fn"] == key and c["section"] == section and c["unit"] == asm.unit))
-                    asm.clauses.append({"name": nm, "unit": asm.unit, "fn": key, "file": relfile, "section": section, "tags": tags,
-                                        "start": base + cs, "end": base + ce, "text": ctext, "canary": "/*canary*/" in ctext})
-            # body
-            if "nobody" in flags or it["body"] is None:
-                asm.emit(";\n", None)
-            else:
-                lp = {}
-                for k, (b, tg) in loops.items():
-                    lspec = "\n".join(b)
-                    lp[k] = (lspec, tg)
-                clp = {k: (p, "\n".join(b), tg) for k, (p, b, tg) in closures.items()}
-                body_start = asm.pos
-                _inject_body(asm, ex, relfile, it, lp, clp, hints, fninfo, rewrites)
-                # register loop invariant clauses
-                for (a, b, info) in asm.regions:
-                    if a >= body_start and info.get("kind") in ("loopspec", "closurespec") and info["fn"] is fninfo:
-                        rtxt = asm.text()[a:b]
-                        for (section, ctext, cs, ce, tags) in split_spec(rtxt):
-                            if section in ("invariant", "invariant_except_break", "ensures", "requires"):
-                                which = "loop%d" % info["loop"] if "loop" in info else "closure%d" % info["closure"]
-                                nm = "%s::%s::%s.%s#%d" % (asm.unit, key, which, section, sum(1 for c in asm.clauses if c["fn"] == key and c["section"] == which + "." + section))
-                                asm.clauses.append({"name": nm, "unit": asm.unit, "fn": key, "file": relfile, "section": which + "." + section,
-                                                    "tags": tags or info.get("tags") or body_tags, "start": a + cs, "end": a + ce, "text": ctext, "canary": False})
+                passes = [False, True]  # the canary is a renamed COPY so that no caller ever assumes its `ensures false`
+            for is_copy in passes:
+                fninfo = {"unit": asm.unit, "key": key, "file": relfile, "body_tags": body_tags}
+                # signature
+                sig_start = it["start"]
+                sig_text = src[sig_start:it["paren_end"]].decode().lstrip()
+                if is_copy:
+                    sig_text = re.sub(r"\bfn\s+" + re.escape(it["name"]) + r"\b", "fn " + it["name"] + "__canary", sig_text, count=1)
+                asm.emit("    " + sig_text, {"kind": "repo-sig", "file": relfile, "line0": it["span"][2], "fn": fninfo})
+                if it["ret"] is not None:
+                    ty = src[it["ret"]["ty"][0]:it["ret"]["ty"][1]].decode()
+                    if retname == "-":
+                        asm.emit(" -> %s" % ty, {"kind": "gen"})
+                    else:
+                        asm.emit(" -> (%s: %s)" % (retname, ty), {"kind": "gen"})
+                if it["where"] is not None:
+                    asm.emit("\n    " + src[it["where"][0]:it["where"][1]].decode(), {"kind": "repo-sig", "file": relfile, "line0": it["span"][2], "fn": fninfo})
                 asm.emit("\n", None)
-                body_bytes = src[it["body"][0]:it["body"][1]]
-                sites = [m["path"] for m in it["macros"] if m["path"] in ("panic", "unreachable", "assert", "debug_assert", "unimplemented", "assert_eq", "debug_assert_eq")]
-                nsites = len(sites) + len(re.findall(rb"\.(expect|unwrap)\(", body_bytes))
-                asm.functions.append({"unit": asm.unit, "key": key, "kind": "fn", "file": relfile,
-                                      "lines": [it["span"][2], it["span"][3]],
-                                      "sha256": hashlib.sha256(src[sig_start:it["span"][1]]).hexdigest()[:16],
-                                      "body_tags": body_tags, "panic_sites": nsites, "loops": len(it["loops"]), "closures": len(it["closures"]),
-                                      "is_unsafe": it["is_unsafe"]})
+                # spec
+                if mutate_spec:
+                    spec = mutate_spec(key, spec)
+                spec_core = spec.rstrip()
+                if is_copy:
+                    has_ens = any(c[0] == "ensures" for c in split_spec(spec_core))
+                    sc = spec_core.rstrip()
+                    if has_ens:
+                        if not sc.endswith(","):
+                            sc += ","
+                        sc += "\n        false /*canary*/,"
+                    else:
+                        sc += "\n      ensures false /*canary*/,"
+                    spec_core = sc
+                base = asm.pos
+                asm.emit(spec_core + "\n", {"kind": "spec", "fn": fninfo})
+                for ci, (section, ctext, cs, ce, tags) in enumerate(split_spec(spec_core)):
+                    if section in ("requires", "ensures") and (not is_copy or "/*canary*/" in ctext):
+                        nm = "%s::%s::%s#%d" % (asm.unit, key, section, sum(1 for c in asm.clauses if c["fn"] == key and c["section"] == section and c["unit"] == asm.unit))
+                        asm.clauses.append({"name": nm, "unit": asm.unit, "fn": key, "file": relfile, "section": section, "tags": tags,
+                                            "start": base + cs, "end": base + ce, "text": ctext, "canary": "/*canary*/" in ctext})
+                # body
+                if "nobody" in flags or it["body"] is None:
+                    asm.emit(";\n", None)
+                else:
+                    lp = {}
+                    for k, (b, tg) in loops.items():
+                        lspec = "\n".join(b)
+                        lp[k] = (lspec, tg)
+                    clp = {k: (p, "\n".join(b), tg) for k, (p, b, tg) in closures.items()}
+                    body_start = asm.pos
+                    _inject_body(asm, ex, relfile, it, lp, clp, hints, fninfo, rewrites)
+                    # register loop invariant clauses
+                    for (a, b, info) in asm.regions:
+                        if not is_copy and a >= body_start and info.get("kind") in ("loopspec", "closurespec") and info["fn"] is fninfo:
+                            rtxt = asm.text()[a:b]
+                            for (section, ctext, cs, ce, tags) in split_spec(rtxt):
+                                if section in ("invariant", "invariant_except_break", "ensures", "requires"):
+                                    which = "loop%d" % info["loop"] if "loop" in info else "closure%d" % info["closure"]
+                                    nm = "%s::%s::%s.%s#%d" % (asm.unit, key, which, section, sum(1 for c in asm.clauses if c["fn"] == key and c["section"] == which + "." + section))
+                                    asm.clauses.append({"name": nm, "unit": asm.unit, "fn": key, "file": relfile, "section": which + "." + section,
+                                                        "tags": tags or info.get("tags") or body_tags, "start": a + cs, "end": a + ce, "text": ctext, "canary": False})
+                    asm.emit("\n", None)
+                    body_bytes = src[it["body"][0]:it["body"][1]]
+                    sites = [m["path"] for m in it["macros"] if m["path"] in ("panic", "unreachable", "assert", "debug_assert", "unimplemented", "assert_eq", "debug_assert_eq")]
+                    nsites = len(sites) + len(re.findall(rb"\.(expect|unwrap)\(", body_bytes))
+                    if not is_copy:
+                      asm.functions.append({"unit": asm.unit, "key": key, "kind": "fn", "file": relfile,
+                                          "lines": [it["span"][2], it["span"][3]],
+                                          "sha256": hashlib.sha256(src[sig_start:it["span"][1]]).hexdigest()[:16],
+                                          "body_tags": body_tags, "panic_sites": nsites, "loops": len(it["loops"]), "closures": len(it["closures"]),
+                                          "is_unsafe": it["is_unsafe"]})
             implkey = key.rsplit("::", 1)[0] if "::" in key else ""
             covered.setdefault((relfile, implkey), set()).add(it["name"])
         else:
